@@ -135,7 +135,10 @@ def main():
             for h in rng.sample(sorted(lst, key=lambda x: x.name), k):
                 rot_sel.add(h.name)
     sel = []
+    off = [h for h in hs if h.tier == "off"]
     for h in hs:
+        if h.tier == "off" and not os.environ.get("VERIF_ALL"):
+            continue             # generators kept for the record: measured to get no verdict (see `excluded_no_verdict` in the evidence)
         if tier == "thorough":
             sel.append(h)
         elif h.tier == "quick" or (h.tier == "rot" and h.name in rot_sel):
@@ -314,7 +317,8 @@ def main():
             "bounds": plan.get("bounds", ""),
             "outside_the_claim": plan.get("outside", []),
             "stubs": plan.get("stubs", ["std::fmt::format -> returns String::new() (error message text is not the subject)"]),
-            "harnesses_total_in_matrix": len(hs),
+            "harnesses_total_in_matrix": len(hs) - len(off),
+            "excluded_no_verdict": [{"harness": h.name, "key": h.key, "why": getattr(h, "off_reason", "no verdict within 900 s / 10 GB when measured")} for h in off],
             "harnesses_run": len(sel),
             "passed": n_pass, "known_finding_harnesses": n_known,
             "inconclusive": [{"harness": h.name, "why": "; ".join("%s: %s" % t for t in tags)} for h, tags in inconclusive],
@@ -324,6 +328,13 @@ def main():
             "solver_time_s": round(solver_s, 2), "symex_time_s": round(symex_s, 2),
             "queries_discharged": discharged,
             "tool_versions": kani.versions(),
+            "build_settings": {
+                "enum_layout": "#[cfg_attr(kani, repr(u8))] added to %s in the scratch copies (explicit tags instead of rustc's niche "
+                               "layout; see ws.REPR_PATCH)" % ", ".join(sorted(x.replace("pub enum ", "").replace(" {", "") for v in ws.REPR_PATCH.values() for x in v)),
+                "cbmc_field_sensitivity_array_size": kani.FS_ARRAY_DEFAULT,
+                "vtable_restriction": "kani -Z restrict-vtable: dyn call sites limited to the trait's implementors" if kani.RESTRICT_VTABLE else "off",
+                "unwinding_assertions": True, "assertion_reach_checks": False,
+            },
             "runs": [{k: m.get(k) for k in ("pkg", "slice", "harnesses", "build_wall_s", "verify_wall_s", "build_failed")} for m in metas],
             "repo_head": ws.repo_head(),
             "source_sha256_of_hooked_files": info["hooked_sha256"],
